@@ -396,13 +396,25 @@ def render_canon(d: dict, seed: int = 0) -> str:
     body = ("rec " if d["rec"] or d["head"] == "call_rec" else "")
     body += "{\n" + "\n".join(items(d["items"], 2)) + "\n}" if d["items"] else "{ }"
     pre, post = CANON_HEAD[d["head"]]
+    if d.get("gap") == "blank_after_in" and d["head"] in ("with", "assert"):
+        pre = pre + "\n# below the head\n"
     text = pre + body + post
     if d["layers"]:
         lets = ["let\n  version = \"1.0\";\n  src = fetchurl { url = \"u\"; };\nin\n", "let\n  pname = \"p\";\nin\n",
                 "let\n  inherit (lib) licenses;\n  # why\n  meta = { };\nin\n"]
         let = ""
+        gap = d.get("gap", "none")
         for k in range(d["layers"]):
-            let += lets[k] + (f"# after in {k + 1}\n" if d.get("inc") else "")
+            one = lets[k]
+            if gap == "before_in":
+                one = one[:-3] + f"\n  # before in {k + 1}\nin\n"
+            elif gap == "two_before_in":
+                one = one[:-3] + f"\n  # one {k + 1}\n\n  # two {k + 1}\nin\n"
+            elif gap == "after_let":
+                one = "let\n" + f"  # after let {k + 1}\n" + one[4:]
+            elif gap == "blank_after_in":
+                one = one + f"\n# below in {k + 1}\n"
+            let += one + (f"# after in {k + 1}\n" if d.get("inc") else "")
         if d["head"] in ("lam_formals_ml", "lam_formals_inline", "lam_formals_at", "lam_id"):
             text = (pre if d["head"] != "lam_id" else "finalAttrs:\n") + let + body + post
         else:
